@@ -212,4 +212,4 @@ def r12_3(ctx):
 
 def run(ctx):
     import engine
-    engine.run_rules(ctx, [r12_1, r12_2, r12_3, dt.r03_5])
+    engine.run_rules(ctx, [r12_1, r12_2, r12_3, dt.r03_5, dt.r02_6])
